@@ -47,7 +47,7 @@ Ltac ext_step :=
   | |- wtrunc (w_guard _ _ _) => apply wtrunc_guard
   end.
 
-Ltac ext_auto := ext_unfold; repeat ext_step.
+Ltac ext_auto := repeat (progress ext_unfold || ext_step).
 
 (* the three facts proved of every (truncatable) extension codec *)
 Definition ext_ok {A} (w : wcodec A) : Prop := wsound w /\ wdec_ok w /\ wfixpoint w.
